@@ -3,13 +3,14 @@ import ast
 import z3
 from pyvc.values import *   # noqa
 from pyvc.harness import unit, mutate_function, replace_compare
-from pyvc.loops import LoopSpec, loop_table
+from pyvc.loops import LoopSpec, loop_table, Sel
 from pyvc.ctx import Undecided
 from pyvc import source
 from .so_common import *    # noqa
 from .so_common import F, _clen, _ctype
 
 LEADER, CAND, FOLL = 2, 1, 0
+COMMIT_LOOP = Sel('while', header=('commitIdx',))
 
 
 def _leader_block(mod):
@@ -71,7 +72,7 @@ def tick_leader(ctx):
     ctx.assume(so.get('raftState') == LEADER)
     old = so.snapshot()
     blk = _leader_block(so.mod)
-    loops = {'SyncObj._onTick': loop_table(so.mod, 'SyncObj._onTick', {1: _commit_loop_spec(so, old)})}
+    loops = {'SyncObj._onTick': loop_table(so.mod, 'SyncObj._onTick', {COMMIT_LOOP: _commit_loop_spec(so, old)})}
     I = make_interp(ctx, so, registry=SUMMARIES, loops=loops)
     kind, v, fr = run_region(I, so, 'SyncObj._onTick', [blk])
     ctx.prove(kind == 'ok', 'C04+C20+C11:leader-block.no-exception', info='outcome %s %s' % (kind, getattr(v, 'typ', '')))
@@ -317,7 +318,7 @@ def get_entries(ctx, count, maxsize):
     # command lengths are non-negative
     q = z3.Int('q')
     ctx.assume(z3.ForAll([q], _clen(log.cmdf(q)) >= 0), quant=True)
-    loops = {'SyncObj.__getEntries': loop_table(so.mod, 'SyncObj.__getEntries', {0: _batch_loop_spec(ctx, st)})}
+    loops = {'SyncObj.__getEntries': loop_table(so.mod, 'SyncObj.__getEntries', {Sel('for', header=('enumerate',)): _batch_loop_spec(ctx, st)})}
     I = make_interp(ctx, so, loops=loops)
     kind, v = run_method(I, so, 'SyncObj.__getEntries', [frm, cnt, mx])
     ctx.prove(kind == 'ok', 'C01+C11:O1.1.no-exception', info=getattr(v, 'typ', None))
@@ -434,7 +435,7 @@ def tick_orchestration(ctx, role):
                 'SyncObj._checkCommandsToApply': rec('checkCommandsToApply'),
                 'SyncObj.__tryLogCompaction': rec('tryLogCompaction'), 'Poller.poll': rec('poll'), 'Transport.tryGetReady': rec('tryGetReady')})
     old = so.snapshot()
-    loops = {'SyncObj._onTick': loop_table(so.mod, 'SyncObj._onTick', {1: _commit_loop_spec(so, old)})}
+    loops = {'SyncObj._onTick': loop_table(so.mod, 'SyncObj._onTick', {COMMIT_LOOP: _commit_loop_spec(so, old)})}
     # the clock stands still during this tick: the timing-dependent blocks (election, fallback) have their own units
     frozen = lambda I_, a, k: so.now
     I = make_interp(ctx, so, registry=reg, loops=loops, inline={'SyncObj.__onBecomeLeader', 'SyncObj.__onLeaderChanged'},
